@@ -570,6 +570,48 @@ pub fn contract_configs(thorough: bool) -> Vec<Cfg> {
     v
 }
 
+/// "video configured at build": build() succeeds iff a video track was configured, whatever
+/// else was set, and the error names the missing configuration.
+fn builder_cases(t: &mut Tally) {
+    use muxide::api::{AudioCodec, Metadata, MuxerBuilder, MuxerError, VideoCodec};
+    let mut k = 0u64;
+    for video in [None, Some(VideoCodec::H264), Some(VideoCodec::H265), Some(VideoCodec::Av1), Some(VideoCodec::Vp9)] {
+        for via_alias in [false, true] {
+            for audio in [None, Some(AudioCodec::None), Some(AudioCodec::Opus), Some(AudioCodec::Aac(muxide::api::AacProfile::Lc))] {
+                for meta in [false, true] {
+                    for fast in [false, true] {
+                        k += 1;
+                        t.evaluations += 1;
+                        let mut b = MuxerBuilder::new(Vec::<u8>::new()).with_fast_start(fast);
+                        if let Some(v) = video {
+                            b = if via_alias { b.set_video_track(v, 640, 480, 30.0) } else { b.video(v, 640, 480, 30.0) };
+                        }
+                        if let Some(a) = audio {
+                            b = if via_alias { b.set_audio_track(a, 48000, 2) } else { b.audio(a, 48000, 2) };
+                        }
+                        if meta {
+                            b = b.with_metadata(Metadata::new().with_title("t")).set_language("eng").set_create_time(1);
+                        }
+                        let r = guarded(|| b.build().map(|_| ()));
+                        let issue = match (&r, video.is_some()) {
+                            (Err(p), _) => Some(("build/panic", p.clone())),
+                            (Ok(Ok(())), false) => Some(("build/accepted-without-video", "build() succeeded although no video track was configured".to_string())),
+                            (Ok(Err(MuxerError::MissingVideoConfig)), false) => None,
+                            (Ok(Err(e)), false) => Some(("build/wrong-error", format!("{e:?}"))),
+                            (Ok(Ok(())), true) => None,
+                            (Ok(Err(e)), true) => Some(("build/rejected-valid", format!("{e:?}"))),
+                        };
+                        if let Some((sig, d)) = issue {
+                            t.violation(&format!("C04/{sig}"), (9_000_000, k), || format!("video {video:?} audio {audio:?} meta {meta} fast {fast}: {d}"), || json!({"engine": "contract-builder", "video": format!("{video:?}"), "audio": format!("{audio:?}"), "meta": meta, "fast": fast}));
+                        }
+                    }
+                }
+            }
+        }
+    }
+    t.count("builder_cases", k);
+}
+
 #[derive(Clone, Copy, PartialEq, Eq, Debug)]
 pub enum Which {
     C04,
@@ -618,7 +660,7 @@ pub fn collect(ctx: &Ctx, which: Which) -> (Tally, Meta) {
     // (alphabet, depth) runs: the full alphabet at depth d, the one-symbol-per-guard alphabet deeper
     let runs: Vec<(&'static [Sym], usize)> = match (which, ctx.thorough) {
         (Which::C06, false) => vec![(C06_ALPHA, 4)],
-        (Which::C06, true) => vec![(C06_ALPHA, 5)],
+        (Which::C06, true) => vec![(C06_ALPHA, 6)],
         (_, false) => vec![(FULL, 3), (CORE, 4)],
         (_, true) => vec![(FULL, 4), (CORE, 6)],
     };
@@ -646,6 +688,10 @@ pub fn collect(ctx: &Ctx, which: Which) -> (Tally, Meta) {
             explore_one(which, &it.cfg, &fx, syms, (idx as u64, k), t);
         });
     });
+    let mut tally = tally;
+    if which == Which::C04 {
+        builder_cases(&mut tally);
+    }
     let desc = runs.iter().map(|(a, d)| format!("{} symbols to depth {d}", a.len())).collect::<Vec<_>>().join(" + ");
     let (rule, assumptions) = match which {
         Which::C04 => (
